@@ -244,6 +244,16 @@ func (e *Engine) harnessPrim(fn *ssa.Function, name string, args []Value) (Value
 		w := mkStr(words[e.concretize(it, 0, len(words)-1)])
 		e.recordPrim("s", w.bytes...)
 		return w, true
+	case "vpStrConstOr":
+		// like vpStrConst with one more word, the given default - so the choice
+		// is trivial (no fork) while the named code has no string constants
+		words := append([]string{e.mustStr(args[1], "vpStrConstOr default")}, e.sh.strConsts(e.mustStr(args[0], "vpStrConstOr"))...)
+		it := e.fresh("dict", false)
+		e.newDomain(it.s, 0, int64(len(words)-1))
+		e.assertPC(tAnd(tCmp("<=", mkInt(0), it), tCmp("<=", it, mkInt(int64(len(words)-1)))))
+		w := mkStr(words[e.concretize(it, 0, len(words)-1)])
+		e.recordPrim("s", w.bytes...)
+		return w, true
 	case "vpConstChars":
 		// the distinct printable bytes that occur in string and byte constants of
 		// the named functions (current SSA), as a character-class body
